@@ -345,7 +345,7 @@ fn gen_cases(o: &Opts, rng: &mut Rng) -> Vec<Case> {
     for i in 0..(70 * scale) {
         let spec = *rng.pick(&[1usize, 1, 2, 2, 3, 4, 5]);
         let mut tag = "bn-pair:shipped-vector";
-        let mut input: Vec<u8> = match i % 10 {
+        let mut input: Vec<u8> = match i % 11 {
             0 => pair_vec.clone(),
             1 => { tag = "bn-pair:empty"; vec![] }
             2 => { tag = "bn-pair:P,-P with one G2 (true)"; let a = bn_point(rng); let mut v = pt_bytes(a); v.extend(&g2gen); v.extend(pt_bytes((a.0, (bnp - a.1) % bnp))); v.extend(&g2gen); v }
@@ -355,6 +355,16 @@ fn gen_cases(o: &Opts, rng: &mut Rng) -> Vec<Case> {
             6 => { tag = "bn-pair:coord>=p"; let mut v = pair_vec.clone(); let k = rng.below(12) as usize; let w = U256::from_be_slice(&v[32 * k..32 * k + 32]); v[32 * k..32 * k + 32].copy_from_slice(&be32(bad_coord(rng, w))); v }
             7 => { tag = "bn-pair:g1-off-curve"; let mut v = pair_vec.clone(); let k = 6 * rng.below(2) as usize + rng.below(2) as usize; let w = U256::from_be_slice(&v[32 * k..32 * k + 32]); v[32 * k..32 * k + 32].copy_from_slice(&be32(w.add_mod(U256::from(1u64), bnp))); v }
             8 => { tag = "bn-pair:g2-garbage"; let mut v = pair_vec.clone(); let k = 2 + 6 * rng.below(2) as usize + rng.below(4) as usize; let w = U256::from_be_slice(&v[32 * k..32 * k + 32]); v[32 * k..32 * k + 32].copy_from_slice(&be32(w.add_mod(U256::from(1u64 + rng.below(9)), bnp))); v }
+            9 => { // EIP-197: every element of the input must be a valid point, also next to the point at infinity
+                tag = "bn-pair:infinity G1 with invalid G2";
+                let mut v = vec![];
+                if rng.chance(1, 2) { v.extend(pt_bytes(bn_point(rng))); v.extend(&g2gen); }
+                v.extend(vec![0u8; 64]);
+                let mut g2 = g2gen.clone();
+                if rng.chance(1, 2) { for b in g2.iter_mut() { *b = 0x11; } } else { let k = rng.below(4) as usize; let w = U256::from_be_slice(&g2[32 * k..32 * k + 32]); g2[32 * k..32 * k + 32].copy_from_slice(&be32(w.add_mod(U256::from(1u64 + rng.below(9)), bnp))); }
+                v.extend(&g2);
+                if rng.chance(1, 2) { v.extend(pt_bytes(bn_point(rng))); v.extend(&g2gen); }
+                v }
             _ => { tag = "bn-pair:mixed"; let mut v = vec![]; for _ in 0..rng.range(1, 3) { v.extend(pt_bytes(bn_point(rng))); v.extend(&g2gen); } v }
         };
         if rng.chance(1, 12) { input.extend(vec![0u8; 192]); }
